@@ -828,6 +828,11 @@ def run(ctx):
             gac_case(log, limit, rid, plan, corr=rep == 0 or not q)
         # back-to-back changes at the start
         gac_case(log, limit, rid, [fresh(), fresh(), None, fresh()])
+        # MANY consecutive cancelled rounds (a busy log: another party appends between read and delete every
+        # time): the operation has no budget - both steps are repeated until a round goes through
+        for k in ((5, 6, 9) if q else (4, 5, 6, 7, 9, 12, 17)):
+            gac_case(log, limit, rid, ([None] * (nreq - 1) + [fresh()]) * k, corr=(k in (5, 6)) or not q)   # at the delete
+            gac_case(log, limit, rid, [None, fresh()] * k, corr=(k == 6) or not q)                       # at the first read
     # first record addressed as 0
     for limit in (0xff, 4):
         log = mk_log(rng, 3)
